@@ -260,6 +260,10 @@ where
         // a claim on an arena that has not allocated anything yet
         super::structure::op_claim(bump.as_mut_scope(), ctx, 0);
     }
+    if ctx.view.typed.cur.is_none() && ctx.rng.chance(1, 2) {
+        // reserve as the very first request of an arena without a chunk (sizes include unrepresentable ones)
+        super::typed::op_reserve(bump.as_mut_scope(), ctx);
+    }
     while ctx.quota > 0 && ctx.viols_here <= 6 {
         match ctx.rng.weighted(&ctx.p.wtop) {
             0 => {
